@@ -141,11 +141,8 @@ theorem gen_line_eq_model (lib : RRuleLib) (st : PState) (line : List Char) :
                         cases hlib : lib st.rrulelines with
                         | error e => simp [bind_err]
                         | ok ivs =>
-                          simp only [bind_ok, DtPy.attr, List.append_nil, forM_intervals ivs st.comptype value hvc.symm]
-                          by_cases hall : (ivs.all fun i => decide (1 ≤ i)) = true
-                          · simp [hall, bind_ok, RfcPy.mkComp, ← hvc]
-                            by_cases hd : value = ['D', 'A', 'Y', 'L', 'I', 'G', 'H', 'T'] <;> simp [hd]
-                          · simp [hall, bind_err]
+                          simp [bind_ok, RfcPy.mkComp, ← hvc]
+                          by_cases hd : value = ['D', 'A', 'Y', 'L', 'I', 'G', 'H', 'T'] <;> simp [hd]
               · simp [hvc]
           · simp only [he, if_false]
             by_cases hc : ICal.truthy st.comptype = true
